@@ -207,12 +207,23 @@ Fixpoint chain (T : optable) (i : Z) (is : list instr) (e : Z) : Prop :=
   | x :: r => i_offset x = i /\ chain T (i + instruction_size T (i_op x)) r e
   end.
 
+Lemma geb_mono v a b : a <= b -> tuple_geb v [3; a] = false -> tuple_geb v [3; b] = false.
+Proof.
+  intros Hab. unfold tuple_geb. destruct v as [|x [|y r]]; cbn [tuple_cmp].
+  - reflexivity.
+  - destruct (Z.compare_spec x 3); intros Hg; try discriminate; reflexivity.
+  - destruct (Z.compare_spec x 3); intros Hg; try discriminate; try reflexivity.
+    destruct (Z.compare_spec y a); [destruct r; discriminate| |discriminate].
+    destruct (Z.compare_spec y b); try reflexivity; exfalso; lia.
+Qed.
+
 Lemma isize_word T op : py36 T = true -> instruction_size T op = 2.
 Proof. intros H. unfold instruction_size. rewrite H. destruct (op <? t_have_argument T); reflexivity. Qed.
 
 Lemma isize_byte T op : py36 T = false -> instruction_size T op = if has_arg T op then 3 else 1.
 Proof.
   intros H. unfold instruction_size, has_arg. rewrite H.
+  unfold py36 in H. rewrite (geb_mono _ 6 13 ltac:(lia) H).
   destruct (op <? t_have_argument T) eqn:E1, (t_have_argument T <=? op) eqn:E2; try reflexivity; lia.
 Qed.
 
@@ -292,15 +303,6 @@ Proof.
     destruct (Z.compare_spec y 11); try reflexivity; exfalso; lia.
 Qed.
 
-Lemma geb_mono v a b : a <= b -> tuple_geb v [3; a] = false -> tuple_geb v [3; b] = false.
-Proof.
-  intros Hab. unfold tuple_geb. destruct v as [|x [|y r]]; cbn [tuple_cmp].
-  - reflexivity.
-  - destruct (Z.compare_spec x 3); intros Hg; try discriminate; reflexivity.
-  - destruct (Z.compare_spec x 3); intros Hg; try discriminate; try reflexivity.
-    destruct (Z.compare_spec y a); [destruct r; discriminate| |discriminate].
-    destruct (Z.compare_spec y b); try reflexivity; exfalso; lia.
-Qed.
 
 Definition wf_code (T : optable) (R : reftable) (code : list Z) : bool :=
   let v := r_version R in
